@@ -73,6 +73,7 @@ type interpreter struct {
 	maxConcOverride int
 	jsonDecoders    map[*value]*nativeDecoder
 	waitGroups      map[*value]int
+	pools           map[*value][]value
 
 	// statistics (per worker, merged by the driver)
 	FuncInstrs map[*ssa.Function]int64
